@@ -14,6 +14,9 @@ import OFV.Proofs.C02Clifford
 import OFV.Proofs.C03Main
 import OFV.Proofs.C03Exact
 import OFV.Proofs.C02Real
+import OFV.Proofs.C02PauliHerm
+import OFV.Proofs.C02MajComm
+import OFV.Proofs.C02HermIO
 
 namespace OFV.C02
 open OFV OFV.Model OFV.Model.C02 OFV.Proofs.C02
@@ -366,5 +369,86 @@ theorem is_hermitian_fermion_complete (D : Nat) (hD : 0 < D) (tol : Rat) (ht : 0
   rw [Proofs.C03.normal_ordered_exact_regime_aux D hD tol (le_of_lt ht) h1 a la,
     Proofs.C03.normal_ordered_exact_regime_aux D hD tol (le_of_lt ht) h1 (hcFermion a) lh]
   exact (is_hermitian_fermion_iff a wa hv).1 hh t
+
+/-! ## `is_hermitian(QubitOperator)` — Pauli strings are Hermitian and linearly independent -/
+
+/-- **distinct canonical Pauli strings are linearly independent** on `n` qubits (trace
+orthogonality: for `P ≠ Q` the summands of `tr(P†Q)` vanish or cancel under `s ↦ s ⊕ 2^j`). -/
+theorem pauli_strings_independent (D : Op) (n : Nat) (hwf : Dict.WF D) (hc : ∀ e ∈ D, PauliCanonical e.1)
+    (hb : ∀ e ∈ D, ∀ f ∈ e.1, f.1 < n) (hz : ∀ s t, s < 2 ^ n → Spec.melQ D t s = 0) : ∀ e ∈ D, e.2 = 0 :=
+  pauli_independent D n hwf hc hb hz
+
+/-- A QubitOperator with canonical strings (what the class stores) is Hermitian in the Spec
+(`⟨t|A|s⟩ = conj ⟨s|A|t⟩` for all basis states) IF AND ONLY IF all its coefficients are real. -/
+theorem is_hermitian_qubit_iff_real (a : Op) (n : Nat) (wa : Dict.WF a) (hc : ∀ e ∈ a, PauliCanonical e.1)
+    (hb : ∀ e ∈ a, ∀ f ∈ e.1, f.1 < n) :
+    (∀ s t, Spec.melQ a t s = (Spec.melQ a s t).conj) ↔ ∀ e ∈ a, e.2.conj = e.2 :=
+  hermitian_qubit_iff_real a n wa hc hb
+
+/-- the coded `is_hermitian(QubitOperator)` (`op == hermitian_conjugated(op)`) is true iff every
+coefficient is within the `==` tolerance of its conjugate — "real up to the tolerance". -/
+theorem is_hermitian_qubit_termwise (tol : Rat) (a : Op) (wa : Dict.WF a) :
+    isHermitianQubit tol a = true ↔ ∀ e ∈ a, closeRel tol e.2 e.2.conj = true :=
+  isHermitianQubit_iff_termwise tol a wa
+
+/-- hence: a Hermitian QubitOperator is always recognised (positive tolerance). -/
+theorem is_hermitian_qubit_complete (tol : Rat) (ht : 0 < tol) (a : Op) (n : Nat) (wa : Dict.WF a)
+    (hc : ∀ e ∈ a, PauliCanonical e.1) (hb : ∀ e ∈ a, ∀ f ∈ e.1, f.1 < n)
+    (hh : ∀ s t, Spec.melQ a t s = (Spec.melQ a s t).conj) : isHermitianQubit tol a = true := by
+  rw [is_hermitian_qubit_termwise tol a wa]
+  intro e he
+  rw [(is_hermitian_qubit_iff_real a n wa hc hb).1 hh e he, closeRel_eq]
+  have := coefClose_refl tol ht e.2
+  simpa [Spec.C02.coefClose] using this
+
+/-! ## `MajoranaOperator.commutes_with`, general path -/
+
+/-- **Majorana canonicity**: the strings `γ_S` (`S` strictly increasing, all modes `< n`) act
+linearly independently on the `2^n` Fock basis states (trace orthogonality: for `S ≠ T` the
+summands of `tr(γ_S† γ_T)` vanish or cancel under `s ↦ s ⊕ 2^j`). -/
+theorem majorana_strings_independent (D : MOp) (n : Nat) (hg : MajGood n D)
+    (hz : ∀ s t, s < 2 ^ n → melM D t s = 0) : ∀ e ∈ D, e.2 = 0 :=
+  maj_independent D n hg hz
+
+/-- FULL STATEMENT: `self * other == other * self` is True iff the operators commute in the Spec.
+Proved under the explicit exact-regime hypothesis `hexact` (coefficients of the two product
+dictionaries that numpy.isclose calls close are equal — decidable on every instance, true for
+dyadic inputs): then the coded test is True iff `A·B` and `B·A` (the Model products, whose
+matrix elements are the products of the denoted operators by C01 `mul_hom_majorana`) have the same
+Spec matrix elements on all `2^n` basis states. -/
+theorem commutes_with_general_iff_partial (atol rtol : Rat) (ha : 0 ≤ atol) (n : Nat) (a b : MOp)
+    (sa : ∀ e ∈ a, e.1.Pairwise (· < ·) ∧ ∀ m ∈ e.1, m < 2 * n)
+    (sb : ∀ e ∈ b, e.1.Pairwise (· < ·) ∧ ∀ m ∈ e.1, m < 2 * n)
+    (hexact : ∀ t, Spec.C02.majCoefClose atol rtol (Dict.get? (mmul a b) t) (Dict.get? (mmul b a) t) = true →
+      Dict.getD (mmul a b) t 0 = Dict.getD (mmul b a) t 0) :
+    majEq atol rtol (mmul a b) (mmul b a) = true ↔
+      ∀ s t, s < 2 ^ n → melM (mmul a b) t s = melM (mmul b a) t s :=
+  commutes_general_iff atol rtol ha n a b sa sb hexact
+
+/-! ## `is_hermitian(InteractionOperator)` -/
+
+/-- FULL STATEMENT: `is_hermitian(InteractionOperator)` is True iff the denoted operator is
+Hermitian.  Proved: the soundness direction in the exact regime (`hexact`: entries of the two normal-ordered
+tensor families that are closer than the tolerance are equal — decidable on the instance, true
+for dyadic tensors) — if the coded test (normal-ordered tensors of the operator and of
+`hermitian_conjugated(operator)` compared with `PolynomialTensor.__eq__`) is True, the operator
+`c + Σ one[p,q] a†_p a_q + Σ two[p,q,r,s] a†_p a†_q a_r a_s` equals its formal adjoint (conjugated
+constant, `T.conj()` tensors) in EVERY algebra satisfying the CAR.  The completeness direction
+(every Hermitian operator is recognised whatever the storage of its two-body tensor — the
+direction of the seeded entry-wise-comparison defect) needs the canonicity of the normal tensor
+form and is covered by the `is-hermitian-interaction` oracle stream only. -/
+theorem is_hermitian_io_sound_partial {A : Type} [Ring A] (I : Proofs.C03.Interp A)
+    (car_same : ∀ x l : Factor, x.2 = l.2 → x.1 ≠ l.1 → I.g l * I.g x + I.g x * I.g l = 0)
+    (car_sq : ∀ x l : Factor, x.2 = l.2 → x.1 = l.1 → I.g l * I.g x = 0)
+    (tol : Rat) (n : Nat) (c : GQ) (one two : List GQ) (hlen : one.length = n * n)
+    (hexact : ∀ k i,
+      (Spec.C02.entry (ioNormalTensors n c one two) k i -
+        Spec.C02.entry (ioNormalTensors n c.conj (hcOneBody n one) (hcTwoBody n two)) k i).normSq < tol * tol →
+      Spec.C02.entry (ioNormalTensors n c one two) k i =
+        Spec.C02.entry (ioNormalTensors n c.conj (hcOneBody n one) (hcTwoBody n two)) k i)
+    (h : isHermitianIO tol n c one two = true) :
+    Proofs.C03.denIO I n c one two =
+      Proofs.C03.denIO I n c.conj (hcOneBody n one) (hcTwoBody n two) :=
+  Proofs.C03.isHermitianIO_sound I car_same car_sq tol n c one two hlen hexact h
 
 end OFV.C02
